@@ -463,3 +463,53 @@ Proof.
   - intros c Hcu Wc. rewrite Cu in Hcu. rewrite Tr, Hc'. destruct (N4 (NotChan c Hcu (or_introl Wc))) as [Z0 _].
     rewrite prcount_app, Z0. cbn [plus]. destruct (f_pr _ _ _ R t c Hcu Wc) as [A B]. rewrite Hc, prcount_cons, I1 in A, B. exact (conj A B).
 Qed.
+
+(** the same with a continuation that only gains quiet instructions *)
+Lemma f_step_q : forall p st st' m m' t i r new p0,
+  FRel p st m -> f14_same m m' -> tframe st st' t -> tcont (thr st t) = i :: r -> tcont (thr st' t) = new ++ r ->
+  (forall j, In j new -> fq j) ->
+  (forall q, phandle (pps st' q) = phandle (pps st q) /\ pexists (pps st' q) = pexists (pps st q) /\
+             (q <> p0 -> psendq (pps st' q) = psendq (pps st q) /\ pcancel (pps st' q) = pcancel (pps st q))) ->
+  ((psendq (pps st' p0) = psendq (pps st p0) /\ pcancel (pps st' p0) = pcancel (pps st p0) /\ spend p0 (mcont st') = spend p0 (mcont st)) \/
+   pexists (pps st p0) = true) ->
+  (pcancel (pps st p0) = true -> pcancel (pps st' p0) = true) ->
+  (forall u, u <> t -> tret (thr st' u) = tret (thr st u)) ->
+  (wkr st t -> tpipe (thr st t) = p0) ->
+  (forall q, q <> p0 -> spend q (mcont st') = spend q (mcont st)) ->
+  (forall u, wkr st u -> tpipe (thr st u) = p0 ->
+     on_pipe p0 (dps p m') = on_pipe p0 (m14_recvd m') ++ rtransit (thr st' u) ++ psendq (pps st' p0) ++ spend p0 (mcont st')) ->
+  (forall c, wkr st t -> is_late m t -> tcur (thr st t) = Some c -> okret c (tret (thr st' t))) ->
+  (forall q x, tcur (thr st t) = Some (CPSend q x) -> tret (thr st' t) = RUnit) ->
+  (forall q, tcur (thr st t) = Some (CPDrop q) -> (exists m0, In (ILock m0 (LPqCancelSet q)) r) \/ pcancel (pps st' q) = true) ->
+  (forall c, tcur (thr st t) = Some c -> wcmd c -> (prcount r <= 1)%nat /\ ((1 <= prcount r)%nat -> tret (thr st' t) = RUnit)) ->
+  FRel p st' m'.
+Proof.
+  intros p st st' m m' t i r new p0 R Sm F Hc Hc' Hnew Hpp Hp0 Hcan Htr Hw Hsp Ops Ook Osr Odc Opr.
+  pose proof F as [Hn [Hf Ho]].
+  assert (Cu : forall u, tcur (thr st' u) = tcur (thr st u)) by (intro u; apply Hf).
+  assert (Tp : forall u, tpipe (thr st' u) = tpipe (thr st u)) by (intro u; apply Hf).
+  assert (Wk : forall u, wkr st' u <-> wkr st u) by (intro u; unfold wkr; rewrite Hn, Tp; tauto).
+  assert (Nq : forall j, In j (tcont (thr st' t)) -> (fq j /\ In j new) \/ In j r).
+  { intros j Hj. rewrite Hc' in Hj. apply in_app_or in Hj. destruct Hj as [Hj|Hj]; [left; split; [apply Hnew; exact Hj|exact Hj]|right; exact Hj]. }
+  assert (Inr : forall j, In j r -> In j (tcont (thr st t))) by (intros j Hj; rewrite Hc; right; exact Hj).
+  assert (Pz : prcount new = O).
+  { clear - Hnew. induction new as [|j k IH]; [reflexivity|]. rewrite prcount_cons, IH by (intros; apply Hnew; right; assumption).
+    destruct (fq_facts j (Hnew j (or_introl eq_refl))) as [A _]. rewrite A. reflexivity. }
+  apply (f_step p st st' m m' t i r p0 R Sm F Hc Hpp Hp0 Hcan Htr Hw Hsp Ops).
+  - intros c W L Hcu. rewrite Cu in Hcu. assert (L0 : is_late m t) by (destruct Sm as [_ _ _ M4]; unfold is_late in *; rewrite M4 in L; exact L).
+    split; [apply (Ook c W L0 Hcu)|]. intros m0 v Hin. destruct (Nq _ Hin) as [[Fj _]|Hj]; [exfalso; exact (proj1 (proj2 (proj2 (proj2 (proj2 (proj2 (fq_facts _ Fj)))))) m0 v eq_refl)|].
+    apply (proj2 (f_ok _ _ _ R t c W L0 Hcu) m0 v (Inr _ Hj)).
+  - intros m0 q x Hin. rewrite Cu. destruct (Nq _ Hin) as [[Fj _]|Hj]; [exfalso; exact (proj1 (proj2 (proj2 (proj2 (fq_facts _ Fj)))) m0 q x eq_refl)|].
+    apply (f_own_send _ _ _ R t m0 q x (Inr _ Hj)).
+  - intros q x Hcu. rewrite Cu in Hcu. apply (Osr q x Hcu).
+  - intros q Hcu. rewrite Cu in Hcu. destruct (Odc q Hcu) as [[m0 A]|A]; [left; exists m0; rewrite Hc'; apply in_or_app; right; exact A|right; exact A].
+  - intros m0 q Hin. rewrite Cu. destruct (Nq _ Hin) as [[Fj _]|Hj]; [exfalso; exact (proj1 (proj2 (proj2 (proj2 (proj2 (fq_facts _ Fj))))) m0 q eq_refl)|].
+    apply (f_own_cs _ _ _ R t m0 q (Inr _ Hj)).
+  - intros m0 v Hin. rewrite Cu. destruct (Nq _ Hin) as [[Fj _]|Hj]; [exfalso; exact (proj1 (proj2 (proj2 (proj2 (proj2 (proj2 (fq_facts _ Fj)))))) m0 v eq_refl)|].
+    destruct (f_own_ret _ _ _ R t m0 v (Inr _ Hj)) as [A B]. split; [exact A|]. intros z Ez. destruct (B z Ez) as [B1 B2]. split; [exact B1|apply Wk; exact B2].
+  - intros j Hin. rewrite Cu, Tp. destruct (Nq _ Hin) as [[Fj _]|Hj].
+    + destruct (fq_facts _ Fj) as [_ [_ [_ [_ [_ [_ [Z1 [Z2 Z3]]]]]]]]. split; [intros m0 q [E|E]; exfalso; [exact (Z1 m0 q E)|exact (Z2 q E)]|intros m0 q E; exfalso; exact (Z3 m0 q E)].
+    + destruct (f_own_pr _ _ _ R t j (Inr _ Hj)) as [A B]. split; [intros m0 q E; destruct (A m0 q E) as [A1 A2]; split; [apply Wk; exact A1|exact A2]
+                                                                   |intros m0 q E; destruct (B m0 q E) as [B1 B2]; split; [apply Wk; exact B1|exact B2]].
+  - intros c Hcu Wc. rewrite Cu in Hcu. rewrite Hc', prcount_app, Pz. cbn [plus]. apply (Opr c Hcu Wc).
+Qed.
